@@ -9,7 +9,7 @@ TermsT = Opaque("Terms")          # a Counter[Parameters] as an opaque value
 
 opaque_method("CombClass", "minimum_size_of_object", Int)
 opaque_method("CombClass", "is_atom", Bool)
-opaque_method("CombClass", "is_empty", Bool)
+opaque_method("CombClass", "is_empty", Bool, may_raise="UserCodeError")
 
 # term providers handed to constructors: subterms[i](m) / parent_terms(m); the value of a Fun is the provider's id
 provider("terms", args=[Int], arg_names=["m"], returns=TermsT)
